@@ -165,6 +165,8 @@ impl RollState {
 
     fn age_rotation_necessary(age: Age, created_at: &DateTime<Local>) -> bool {
         let now = Local::now();
+        #[cfg(flexi_logger_verif)]
+        let now = crate::verif_hooks::now_or(now);
         match age {
             Age::Day => {
                 created_at.year() != now.year()
@@ -481,6 +483,10 @@ impl State {
                             current_infix.clone()
                         } else {
                             *ts = Local::now();
+                            #[cfg(flexi_logger_verif)]
+                            {
+                                *ts = crate::verif_hooks::now_or(*ts);
+                            }
                             self.config.file_spec.collision_free_infix_for_rotated_file(
                                 &infix_from_timestamp(ts, self.config.use_utc, fmt),
                             )
@@ -673,6 +679,10 @@ fn open_log_file(
 }
 
 fn get_creation_timestamp(path: &Path) -> DateTime<Local> {
+    #[cfg(flexi_logger_verif)]
+    if let Some(t) = crate::verif_hooks::creation_time(path) {
+        return t;
+    }
     // On windows, we know that try_get_creation_date() returns a result, but it is wrong.
     if cfg!(target_os = "windows") {
         get_current_timestamp()
@@ -693,6 +703,8 @@ fn try_get_modification_timestamp(path: &Path) -> Result<DateTime<Local>, FlexiL
     Ok(d.into())
 }
 fn get_current_timestamp() -> DateTime<Local> {
+    #[cfg(flexi_logger_verif)]
+    use crate::verif_hooks::Local;
     Local::now()
 }
 
